@@ -14,11 +14,12 @@ import (
 // ---------- scenario ----------
 
 type Call struct {
-	Kind  string // ping devid raw uint int str cmd
-	Cmd   byte
-	Addr  uint16
-	Sleep bool   // sleep 110 ms before the call (must make its first attempt idle)
-	Want  string // generator's expectation, stated from the property text ("" = none): exact result string
+	Kind    string // ping devid raw uint int str cmd
+	Cmd     byte
+	Addr    uint16
+	Sleep   bool   // sleep 110 ms before the call (must make its first attempt idle)
+	SleepMs int    // sleep that long before the call
+	Want    string // generator's expectation, stated from the property text ("" = none): exact result string
 }
 
 type Scenario struct {
@@ -108,6 +109,7 @@ type RunResult struct {
 	kept            [][]byte
 	keptCopy        []string
 	RetainedChecked int
+	Stalled         int
 }
 
 func (r *RunResult) keep(v []byte) {
@@ -254,14 +256,33 @@ func RunScenario(sc *Scenario) *RunResult {
 	var cfg vedirect.Config
 	dbg := &capLogger{}
 	iol := &capLogger{}
+	// the logger implementation takes turns too: pointer type, value-receiver struct, function adapter, named string type
+	lk := len(sc.Calls) + len(sc.Replies) + len(sc.Tag)
 	if sc.Cfg&1 != 0 {
-		cfg.DebugLogger = dbg
+		cfg.DebugLogger = loggerOfKind(lk, dbg)
 	}
 	if sc.Cfg&2 != 0 {
-		cfg.IoLogger = iol
+		cfg.IoLogger = loggerOfKind(lk+1, iol)
 	}
-	vd, err := vedirect.NewVedirect(port, cfg)
+	var vd *vedirect.Vedirect
+	var err error
+	newPanicked := false
+	func() {
+		defer func() {
+			if r := recover(); r != nil {
+				newPanicked = true
+			}
+		}()
+		vd, err = vedirect.NewVedirect(port, cfg)
+	}()
 	res := &RunResult{Port: port}
+	if newPanicked {
+		res.Op = fmt.Sprintf("P %d new-panicked", sc.Cfg)
+		res.Out = "PANIC"
+		res.Panicked = true
+		res.Violations = append(res.Violations, fmt.Sprintf("NewVedirect panics with logger configuration %d (debug logger %T, io logger %T)", sc.Cfg, cfg.DebugLogger, cfg.IoLogger))
+		return res
+	}
 	if err != nil {
 		res.Op = "P new-failed"
 		res.Out = "err"
@@ -271,6 +292,9 @@ func RunScenario(sc *Scenario) *RunResult {
 	for i, c := range sc.Calls {
 		if c.Sleep {
 			time.Sleep(110 * time.Millisecond)
+		}
+		if c.SleepMs > 0 {
+			time.Sleep(time.Duration(c.SleepMs) * time.Millisecond)
 		}
 		evFrom := len(port.Events)
 		wFrom := port.NW
@@ -289,16 +313,22 @@ func RunScenario(sc *Scenario) *RunResult {
 		if out == "HANG" {
 			res.Violations = append(res.Violations, fmt.Sprintf("call %d (%s) does not terminate: more than %d port operations on a finite byte stream", i, callName(c), opBudget))
 		}
-		if (c.Sleep || i == 0) && port.NW > wFrom && bits[0] != '1' {
+		if (c.Sleep || c.SleepMs >= 110 || i == 0) && port.NW > wFrom && bits[0] != '1' {
 			res.Violations = append(res.Violations, fmt.Sprintf("call %d (%s): first attempt after >=100ms idle (or construction) did not flush the receiver", i, callName(c)))
 		}
 		res.Results = append(res.Results, out)
 		res.PerCallWrites = append(res.PerCallWrites, port.NW-wFrom)
 		callStrs = append(callStrs, callName(c)+"@"+bits)
-		if c.Want != "" && out != c.Want {
+		// a retry that found the line idle for 100 ms although nothing in the scenario is slow: the process was stalled
+		// (a loaded machine); what was pending got flushed, the generator's expectation does not apply to this run
+		stalled := len(bits) > 1 && strings.Contains(bits[1:], "1") && len(sc.RDelay) == 0
+		if stalled {
+			res.Stalled++
+		}
+		if c.Want != "" && out != c.Want && !stalled {
 			res.Violations = append(res.Violations, fmt.Sprintf("call %d (%s): property demands %s, observed %s", i, callName(c), c.Want, out))
 		}
-		if i < len(sc.ExactWrites) && sc.ExactWrites[i] >= 0 && port.NW-wFrom != sc.ExactWrites[i] {
+		if i < len(sc.ExactWrites) && sc.ExactWrites[i] >= 0 && port.NW-wFrom != sc.ExactWrites[i] && !stalled {
 			res.Violations = append(res.Violations, fmt.Sprintf("call %d (%s) wrote %d frames; the answer arrives with attempt %d", i, callName(c), port.NW-wFrom, sc.ExactWrites[i]))
 		}
 		if sc.MaxWritesPerCall > 0 && port.NW-wFrom > sc.MaxWritesPerCall {
@@ -314,6 +344,8 @@ func RunScenario(sc *Scenario) *RunResult {
 		}
 	}
 	res.RetainedChecked = len(res.kept)
+	res.Violations = append(res.Violations, crossCheck()...)
+	crossKeep(res.kept)
 	// independent oracles on the traffic
 	res.Violations = append(res.Violations, oracleReceive(sc, res)...)
 	res.Violations = append(res.Violations, oracleTransmit(sc, res)...)
